@@ -73,7 +73,10 @@ struct ChannelSlot {
 
 impl ChannelSlot {
     fn new(mio_channel_bound: usize, channel_id: u16) -> (ChannelSlot, IoLoopHandle) {
-        let (mio_tx, mio_rx) = mio_sync_channel(mio_channel_bound);
+        // A rendezvous channel (bound 0) cannot work here: mio-extras marks the receiver
+        // readable only after the send has completed, which a rendezvous send never does
+        // until the I/O thread receives. The smallest workable bound is 1.
+        let (mio_tx, mio_rx) = mio_sync_channel(mio_channel_bound.max(1));
 
         // Bound of 2 is intentional here. The normal case for this channel is that it
         // will have at most 1 message in it (the response to a synchronous RPC call).
